@@ -4,7 +4,7 @@
     (faithful SplitAt bookkeeping on polylines), Split/Cert.v (sub-curve checker, length enclosures). *)
 From Coq Require Import ZArith QArith List Bool.
 From CV Require Import Geom.Winding.
-From CV Require Import PathEnc.Enc Geom.Matrix Geom.Bezier Split.Reverse Split.SplitAt Split.Cert Split.ReverseProofs Split.ReverseClosed Split.SplitProofs.
+From CV Require Import PathEnc.Enc Geom.Matrix Geom.Bezier Split.Reverse Split.SplitAt Split.Cert Split.ReverseProofs Split.ReverseClosed Split.SplitProofs Split.ReversePath.
 Import ListNotations.
 Open Scope Q_scope.
 
@@ -88,6 +88,13 @@ Theorem C09_wn_reverse : forall v0 vs p, (forall v, In v (v0 :: vs) -> snd p <> 
   wn_contour (v0 :: rev vs) p = (- wn_contour (v0 :: vs) p)%Z.
 Proof. exact wn_reverse_contour. Qed.
 Print Assumptions C09_wn_reverse.
+
+(** wn_reverse lifted to WHOLE paths: for any number of contours (each reversed, and the order of the contours
+    reversed as Reverse does) and every point not level with a vertex the winding number is negated *)
+Theorem C09_wn_reverse_path : forall P p, (forall c v, In c P -> In v c -> snd p <> snd v) ->
+  wn (rev (map rev_contour P)) p = (- wn P p)%Z.
+Proof. exact wn_reverse_path. Qed.
+Print Assumptions C09_wn_reverse_path.
 
 (** subcurve_cert_sound — FULL: a piece accepted by the checker is, for EVERY parameter t in [0,1], within the slack of
     the input segment at s + t(u-s), with 0 <= s <= u <= 1 (exact blossom identities: C09_sub*_eval for all t) *)
